@@ -9,6 +9,9 @@ structure RunStats where
   gcs : Array (Nat × Nat) := #[]
   /-- the run ended at one of the machine's limits (stack / frame count at a `Call`) -/
   limit : Bool := false
+  /-- rolling hash of (ip, opcode byte, stack height, frame count = `depth`, proved equal to the length of the frame list: C12_depth_is_frames) over the executed instructions; the hook
+      `verif::on_step` of the real VM computes the same number (lockstep comparison of the two machines) -/
+  hash : UInt64 := 0
 
 partial def runInstr (c : Code) (budget : Nat) (s : VM) (st : RunStats) : Outcome × RunStats :=
   if budget = 0 then (.budget s, st) else
@@ -18,7 +21,10 @@ partial def runInstr (c : Code) (budget : Nat) (s : VM) (st : RunStats) : Outcom
   let isHalt := match decodeAt c s.ip with
     | some .halt => true
     | _ => false
-  let st := { st with steps := st.steps + 1, haltStack := if isHalt then s.stack.size else st.haltStack }
+  let opc : Nat := (c[s.ip]?).getD 255
+  let hash := st.hash * 1099511628211 + (UInt64.ofNat s.ip) * 31 + (UInt64.ofNat opc) * 131 +
+    (UInt64.ofNat s.stack.size) * 65537 + (UInt64.ofNat (s.depth + 1)) * 16777259 + 1
+  let st := { st with steps := st.steps + 1, haltStack := if isHalt then s.stack.size else st.haltStack, hash := hash }
   match step c s with
   | .next s' =>
     let st := if isRet && !s.mem.managed.isEmpty then
@@ -48,7 +54,7 @@ def evalTextX (cc : CharClass) (budget : Nat) (src : Text) : String :=
       let (o, st) := runInstr bc.code budget (VM.start {} bc) {}
       let gcs := ",".intercalate (st.gcs.toList.map fun p => toString p.1 ++ "/" ++ toString p.2)
       let tail (live : Nat) := " # steps=" ++ toString st.steps ++ " halt=" ++ toString st.haltStack ++
-        " gc=" ++ toString st.gcs.size ++ ":" ++ gcs ++ " live=" ++ toString live ++ (if st.limit then " limit=1" else "")
+        " gc=" ++ toString st.gcs.size ++ ":" ++ gcs ++ " live=" ++ toString live ++ " hash=" ++ toString st.hash.toNat ++ (if st.limit then " limit=1" else "")
       match o with
       | .value v s =>
         let s' := finishValue v s
@@ -61,5 +67,19 @@ def evalTextX (cc : CharClass) (budget : Nat) (src : Text) : String :=
       | .budget s =>
         let s' := finishError s
         "BUDGET" ++ tail (liveCells s'.mem.heap)
+
+/-- run the machine MODEL on given bytecode (the REAL compiler's bytes and constants): outcome, steps, lockstep hash -/
+def runBytesX (budget : Nat) (bc : Bytecode) : String :=
+  let (o, st) := runInstr bc.code budget (VM.start {} bc) {}
+  let gcs := ",".intercalate (st.gcs.toList.map fun p => toString p.1 ++ "/" ++ toString p.2)
+  let tail := " # steps=" ++ toString st.steps ++ " halt=" ++ toString st.haltStack ++
+    " gc=" ++ toString st.gcs.size ++ ":" ++ gcs ++ " hash=" ++ toString st.hash.toNat
+  match o with
+  | .value v s =>
+    let s' := finishValue v s
+    (Obs.value (s'.mem.heap.tree treeDepth [] v) s'.out).show ++ tail
+  | .error e s => (Obs.error e (finishError s).out).show ++ tail
+  | .fault site => "FAULT " ++ site
+  | .budget _ => "BUDGET" ++ tail
 
 end Nl
